@@ -1116,9 +1116,66 @@ fn zoned_case(c: &mut Ctx, z: &DateTime<FixedOffset>, kind: usize, arg: i64) {
             c.fail("zone-aware field replacement returned a value outside MIN_UTC..=MAX_UTC", &line);
         }
     }
+    if kind >= 2 {
+        zoned_field_ref_oracle(c, z, kind, arg, &got, &line);
+    }
     match want {
         Some(w) => zoned_oracle(c, "operation at a range end / sub-minute offset", &line, z, got, w),
         None => c.count("zoned:headroom-wall-clock"),
+    }
+}
+/// Independent judgement of a field replacement on a zone-aware value (kinds 2..=12 of `zoned_case`), also
+/// when the wall clock lies in the day before MIN / after MAX: the wall clock is computed from the UTC
+/// reading's day number and the offset, the field is replaced on it by reference arithmetic, and the result
+/// must be exactly that wall clock at the same offset if it exists and its instant lies in MIN_UTC..=MAX_UTC,
+/// nothing otherwise.
+fn zoned_field_ref_oracle(c: &mut Ctx, z: &DateTime<FixedOffset>, kind: usize, arg: i64, got: &Result<Option<DateTime<FixedOffset>>, ()>, line: &str) {
+    let (y, m, d, sod) = wall_ymd(z);
+    let nano = z.naive_utc().time().nanosecond() as i64;
+    let v = arg as u32 as i64;
+    let one = v + ((kind == 4 || kind == 6 || kind == 8) as i64);
+    let target: Option<(i64, i64, i64, i64, i64)> = match kind {
+        2 => {
+            if arg == y { Some((y, m, d, sod, nano)) } else if in_range(arg) && d <= month_len(arg, m) { Some((arg, m, d, sod, nano)) } else { None }
+        }
+        3 | 4 => if (1..=12).contains(&one) && d <= month_len(y, one) { Some((y, one, d, sod, nano)) } else { None },
+        5 | 6 => if one >= 1 && one <= month_len(y, m) { Some((y, m, one, sod, nano)) } else { None },
+        7 | 8 => {
+            if one >= 1 && one <= 365 + is_leap(y) as i64 {
+                let (mut mm, mut rest) = (1, one);
+                while rest > month_len(y, mm) {
+                    rest -= month_len(y, mm);
+                    mm += 1;
+                }
+                Some((y, mm, rest, sod, nano))
+            } else {
+                None
+            }
+        }
+        9 => if v < 24 { Some((y, m, d, v * 3600 + sod % 3600, nano)) } else { None },
+        10 => if v < 60 { Some((y, m, d, sod / 3600 * 3600 + v * 60 + sod % 60, nano)) } else { None },
+        11 => if v < 60 { Some((y, m, d, sod / 60 * 60 + v, nano)) } else { None },
+        _ => if v < 2_000_000_000 { Some((y, m, d, sod, v)) } else { None },
+    };
+    // MIN_UTC ..= MAX_UTC on the instant of the new wall clock
+    let want = target.filter(|w| {
+        let inst = day_num(w.0, w.1, w.2) * 86400 + w.3 - z.offset().local_minus_utc() as i64;
+        let last = max_dn() * 86400 + 86399;
+        inst >= min_dn() * 86400 && (inst < last || (inst == last && w.4 < 1_000_000_000))
+    });
+    let headroom = { let n0 = day_num(y, m, d); n0 < min_dn() || n0 > max_dn() };
+    match (got, want) {
+        (Ok(Some(g)), Some(w)) => {
+            let (gy, gm, gd, gsod) = wall_ymd(g);
+            if (gy, gm, gd, gsod, g.naive_utc().time().nanosecond() as i64) != w || g.offset() != z.offset() {
+                c.fail("zone-aware field replacement: the result's wall clock is not the wall clock with that field replaced and the others kept", &format!("{line} want {w:?}"));
+            }
+            c.count(if headroom { "zoned-ref:headroom-wall-clock:some" } else { "zoned-ref:some" });
+        }
+        (Ok(None), None) => c.count(if headroom { "zoned-ref:headroom-wall-clock:none" } else { "zoned-ref:none" }),
+        (Ok(Some(g)), None) => c.fail("zone-aware field replacement: yields a value although no such wall clock exists or its instant is outside MIN_UTC..=MAX_UTC", &format!("{line} -> {g:?}")),
+        (Ok(None), Some(w)) => c.fail("zone-aware field replacement: fails although the wall clock exists and its instant is in range", &format!("{line} want {w:?}")),
+        (Err(()), _) => c.fail("zone-aware field replacement: panicked", line),
     }
 }
 
